@@ -4,6 +4,7 @@
 // and C10 (disabled statements evaluate nothing).  DESIGN.md section 3.1.
 #pragma once
 #include "sched.hpp"
+#include <iomanip>
 
 #ifndef LOGSIM_MIN
 #define LOGSIM_MIN 0
@@ -391,9 +392,15 @@ inline std::string big_string(const Item& it)
 }
 
 // reference rendering: what `ostream << item` writes
+inline void render_into(std::ostream& o, const Item& it);
 inline std::string render(const Item& it)
 {
     std::ostringstream o;
+    render_into(o, it);
+    return o.str();
+}
+inline void render_into(std::ostream& o, const Item& it)
+{
     switch (it.kind)
     {
     case 's':
@@ -428,7 +435,7 @@ inline std::string render(const Item& it)
         break;
     case 'c':
     case 'g':
-        o << "L" << it.val;
+        o << ("L" + std::to_string(it.val)); // the callable returns a finished string
         break;
     case 'f':
         o << LITERALS[it.val & 3];
@@ -436,21 +443,32 @@ inline std::string render(const Item& it)
     case 'n':
     case 'm':
     case 'a':
-        o << "cl";
+        o << std::string("cl");
         break;
     case 'r':
     case 'y':
-        o << "L" << it.val;
+        o << ("L" + std::to_string(it.val)); // the callable returns a finished string
         break;
     case 'z':
         o << odd_string(it);
+        break;
+    case 'H':
+        o << std::hex;
+        break;
+    case 'A':
+        o << std::boolalpha;
+        break;
+    case 'W':
+        o << std::setw(7);
+        break;
+    case 'N':
+        o << ("N" + std::to_string(it.val));
         break;
     case 'x':
         break;
     default:
         break;
     }
-    return o.str();
 }
 
 inline std::vector<Item> parse_items(const std::string& s)
@@ -476,7 +494,7 @@ inline std::vector<Item> parse_items(const std::string& s)
         it.val = n;
         if (i < s.size() && s[i] == ',')
             ++i;
-        if (strchr("sBkhiuldbpcgfxnmzrya", it.kind))
+        if (strchr("sBkhiuldbpcgfxnmzryaHAWN", it.kind))
             v.push_back(it);
         if (v.size() >= 8)
             break;
@@ -527,6 +545,28 @@ inline std::string plain_function()
 {
     return stateless_callable_body();
 }
+
+// A lazily evaluated callable that logs a statement of its own while it runs (same thread): the
+// inner statement is complete before the outer one continues.  The engine installs the hook.
+inline void (*g_nested_hook)(int parent_stmt, int item) = nullptr;
+struct Nested
+{
+    int stmt, item;
+    int64_t val;
+    std::string operator()() const
+    {
+        yield(YK_CALLABLE);
+        {
+            NoFault nf;
+            int me = Scheduler::self_id();
+            bool in_bracket = me >= 0 && g.tctx[me].cur_stmt == stmt && g.tctx[me].cur_item == item;
+            g.stmts[static_cast<size_t>(stmt)].calls.push_back(Stmt::Call{ item, in_bracket });
+        }
+        if (g_nested_hook)
+            g_nested_hook(stmt, item);
+        return "N" + std::to_string(val);
+    }
+};
 
 struct LazyLit
 {
@@ -647,6 +687,16 @@ decltype(auto) with_item(int stmt, int k, const Item& it, F&& f)
         }
         return f(v);
     }
+    case 'H':
+        return f(std::hex); // manipulators: their effect stays within this statement's text
+    case 'A':
+        return f(std::boolalpha);
+    case 'W':
+        return f(std::setw(7));
+#if LS_HAVE_CALLABLE_OBJ
+    case 'N':
+        return f(Nested{ stmt, k, it.val }); // a callable that itself issues a log statement
+#endif
     default:
         g.unavailable_item = it.kind;
         return f(0);
@@ -673,6 +723,7 @@ struct NamedBase
 {
     virtual ~NamedBase() = default;
     virtual void put(PutCtx& pc, const Item& it, int k) = 0;
+    virtual NamedBase* move_out() = 0; // `auto t = std::move(s);` - the new object continues the statement
 };
 
 // The entry points with and without a tag argument are used through separate helpers (they may be
@@ -712,6 +763,9 @@ struct Named : NamedBase
         if (!id.empty())
             s << id;
     }
+    Named(Named&& o) : s(std::move(o.s))
+    {
+    }
     void put(PutCtx& pc, const Item& it, int k) override
     {
         pc.begin(k);
@@ -719,6 +773,10 @@ struct Named : NamedBase
             s << v;
             pc.end(k);
         });
+    }
+    NamedBase* move_out() override
+    {
+        return new Named(std::move(*this));
     }
 };
 
